@@ -15,7 +15,8 @@ RULE = ("random problems with <= 6 variables and dyadic biases (BQM via sample/s
         "keep_penalty_variables / discard_unsatisfied, scalar / bias_range / poly_range / ignored_terms, fixed_variables, initial states, label pools "
         "that are sortable or not); every layer's input and output "
         "is recorded; a case is non-trivial when the problem has at least one variable; distinct by canonical JSON of the case")
-TRUSTED = ["translator translators/polyscale_rule.py (fail-closed ast translation of BinaryPolynomial.normalize/scale and PolyScaleComposite.sample_poly into Gen/Gen_PolyScale.v: initial extrema, length tests, update expressions, inv_scalar formula, scale factor, ratio scalar, un-scaling)",
+TRUSTED = ["translator translators/exact_hoc_rules.py (fail-closed ast translation of exact_solver.py's domain constructions range(2) / [-1,1] / range(ceil(lb), floor(ub)+1) / range(num_cases), the bits->spins map, and HigherOrderComposite.sample_poly / polymorph_response defaults into Gen/Gen_ExactHoc.v; _graycode, _all_cases_cqm, _all_cases_dqm, ExactSolver.sample, penalty_satisfaction, polymorph_response pinned by shape)",
+           "translator translators/polyscale_rule.py (fail-closed ast translation of BinaryPolynomial.normalize/scale and PolyScaleComposite.sample_poly into Gen/Gen_PolyScale.v: initial extrema, length tests, update expressions, inv_scalar formula, scale factor, ratio scalar, un-scaling)",
            "model: coq/theories/Model/Solve.v, ChkC07.v, Comb.v, Poly.v, HPoly.v, Samples.v (hand written, tied by this correspondence)",
            "harness recorders Rec/PolyRec/IsingOnly/QuboOnly in harness/w_c07.py (snapshot what each layer received and returned)",
            "float arithmetic of the implementation is exact on the generated dyadic data (normalisation factors are kept powers of two by the generator)"]
@@ -25,5 +26,6 @@ ASSUMPTIONS = ["the coefficients a problem object reports define the submitted p
 PARTIAL = ["RandomSampler / SimulatedAnnealingSampler / IdentitySampler('random'): WHICH rows the PRNG / annealing schedule produces is not modelled; everything else is (from_samples_bqm on the rows they returned, the conversion back from Ising with the offset, row count and the given states as prefix: C07_search_agnostic_energy, C07_sa_search_agnostic_energy, C07_identity_random_prefix) and is compared exactly on every returned set",
            "TruncateComposite / PolyTruncateComposite with sorted_by='energy': SampleSet.slice calls np.argsort with the default (unstable) kind - the source requests kind='stable' only in SampleSet.data(index=True), which nothing in scope uses - so the order among equal energies is deliberately NOT modelled; C07_truncate_any_ascending_order proves that every ascending ordering has the model's energy column and keeps only the child's pairs, which is exactly what the correspondence compares (energy column exactly, rows as a sub-multiset of the child's (energy,row) pairs)",
            "IdentitySampler's documented rejections (ValueError) are compared with the model's None; any other exception of a valid stack is a violation",
+           "PolyScaleComposite with improper ranges: one-sided guarantees are proved (C07_normalize_one_sided), the two-sided range rule is REFUTED there (C07_normalize_improper_range_refuted: unattainable range, negative factor for an inverted range - energies stay correct); a zero bound is a ZeroDivisionError in the implementation, modelled as None and compared (C07_polyscale_call_raises)",
            "ExactCQMSolver: only hard constraints are generated; soft-constraint energies and violation details belong to C08 (the feasibility column is tied to C08's definition by C07_exact_cqm_feasible_column)",
            "StructureComposite's 'child untouched on rejection' is stated on the functional model as independence from the child and observed through the recorder below the composite (zero calls)"]
